@@ -1495,7 +1495,11 @@ class Vector : public vec::VectorWithInplaceStorage<T, Alloc, SizeType, GrowingP
   }
 
   // Define swap here instead of VectorImpl as noexcept swap is possible only for same inplace capacity
-  void swap(Vector &o) noexcept(N == 0 || vec::is_swap_noexcept<T>::value) { this->swap_impl(o); }
+  void swap(Vector &o) noexcept(N == 0 || vec::is_swap_noexcept<T>::value) {
+    if (AMC_LIKELY(this != &o)) {
+      this->swap_impl(o);
+    }
+  }
 
   void shrink_to_fit() { this->shrink_impl(N); }
 
